@@ -559,6 +559,11 @@ class _Lit(Col):
     __slots__ = ()
 
 
+def length():
+    """pl.len(): the number of rows (of the current selection)"""
+    return Expr(lambda fr: [("len", _Agg([z3.Sum([z3.If(p, 1, 0) for p in fr.present]) if fr.present else z3.IntVal(0)], [F], real_pl.UInt32))])
+
+
 def fold(acc, function, exprs):
     def f(fr):
         cols = (exprs if isinstance(exprs, Expr) else col(exprs)).fn(fr)
@@ -936,10 +941,12 @@ class DataFrame(_Frame):
         (c,) = self.cols.values()
         if len(c) != 1:
             raise ModelGap("item() on a frame with symbolic height")
-        if c.kind != "bool":
-            raise ModelGap("item() of a non-boolean")
         if bool(sb(c.nulls[0])):
             return None
+        if c.kind in ("int", "float"):
+            return wrap_num(c.vals[0])
+        if c.kind != "bool":
+            raise ModelGap("item() of a " + c.kind)
         return bool(sb(c.vals[0]))
 
     def __getitem__(self, k):
@@ -973,7 +980,11 @@ class DataFrame(_Frame):
 
     @property
     def height(self):
-        raise ModelGap("DataFrame.height is symbolic")
+        return wrap_num(z3.Sum([z3.If(p, 1, 0) for p in self.present]) if self.present else z3.IntVal(0))
+
+    @property
+    def shape(self):
+        return (self.height, len(self.cols))
 
     def is_empty(self):
         return bool(sb(z3.Not(zor(self.present))))
@@ -1048,7 +1059,7 @@ def _series_ctor(*a, **kw):
     raise ModelGap("pl.Series constructor")
 
 
-_OVERRIDES = {"col": _ColNS(), "lit": lit, "fold": fold, "concat": concat, "all_horizontal": all_horizontal, "LazyFrame": LazyFrame,
+_OVERRIDES = {"col": _ColNS(), "lit": lit, "len": length, "count": length, "fold": fold, "concat": concat, "all_horizontal": all_horizontal, "LazyFrame": LazyFrame,
               "DataFrame": DataFrame, "Expr": Expr, "Series": _series_ctor}
 PROXY = PlProxy()
 REPORT = {}
